@@ -23,11 +23,11 @@ us = SC.us
 CANCELLERS = ("EDF", "FIFO", "Clockwork", "TetriSched_CPLEX")
 
 
-def tight_cases(policies):
+def tight_cases(policies, batching=False):
     @st.composite
     def s(draw):
-        flat = draw(st.booleans())
-        case = draw(SC.call_cases(policies=policies, max_tasks=5 if flat else 4, tight_deadlines=True, max_runtime=9 if flat else 6, batching=False, flat=flat))
+        flat = draw(st.booleans()) or batching
+        case = draw(SC.call_cases(policies=policies, max_tasks=5 if flat else 4, tight_deadlines=True, max_runtime=9 if flat else 6, batching=batching, flat=flat))
         pol = case["policy"]
         pol["enforce_deadlines"] = True
         if pol["name"] == "ILP":
@@ -38,7 +38,19 @@ def tight_cases(policies):
             for j in g["jobs"]:
                 if draw(st.booleans()):
                     rts = [s_["runtime"] for s_ in case["profiles"][j["profile"]]["strategies"]]
-                    j["deadline"] = case["now"] + min(rts) + draw(st.integers(-3, 6))
+                    # members of one batch get different deadlines: the batch has to meet the earliest of them
+                    j["deadline"] = case["now"] + min(rts) + draw(st.integers(-1, 14) if batching else st.integers(-3, 6))
+        if batching and len(case["graphs"]) >= 2 and draw(st.booleans()):
+            # the contended-batch shape: two requests of one profile that can only run as a batch of two, an early and a late
+            # deadline, and a single worker, so that the batch often cannot start at once
+            for s_ in case["profiles"][0]["strategies"]:
+                s_["batch"] = 2
+            fastest = min(s_["runtime"] for s_ in case["profiles"][0]["strategies"])
+            for g, slack in zip(case["graphs"][:2], (draw(st.integers(0, 3)), draw(st.integers(5, 14)))):
+                g["jobs"][0]["profile"] = 0
+                g["jobs"][0]["deadline"] = case["now"] + fastest + slack
+            case["cluster"] = [dict(case["cluster"][0], workers=case["cluster"][0]["workers"][:1])]
+            case["shape"] = "contended_batch"
         return case
 
     return s()
@@ -133,6 +145,8 @@ def execute(case):
         res.counters["feasible_points"] = n_points
     res.nontrivial = boundary
     res.classes = [f"policy={pname}", "boundary" if boundary else "no_boundary"]
+    if case.get("shape"):
+        res.classes.append(case["shape"])
     seen, outv = set(), []
     for v in V:
         if v.sig not in seen:
@@ -188,5 +202,7 @@ CHECKS = [
     Check("clockwork_admission", execute, strategy=lambda tier: tight_cases(("Clockwork",)), budget={"quick": 600, "thorough": 15000}),
     Check("gurobi_planners", execute, strategy=lambda tier: tight_cases(("ILP", "TetriSched_Gurobi")), budget={"quick": 240, "thorough": 5000}),
     Check("cplex_planner", execute, strategy=lambda tier: tight_cases(("TetriSched_CPLEX",)), budget={"quick": 120, "thorough": 3000}),
+    # --scheduler_enable_batching: requests of one profile are decided as one virtual batch task; every member has its own deadline
+    Check("cplex_planner_batching", execute, strategy=lambda tier: tight_cases(("TetriSched_CPLEX",), batching=True), budget={"quick": 400, "thorough": 6000}),
     Check("planner_runs", exec_run, strategy=planner_worlds, budget={"quick": 160, "thorough": 4000}),
 ]
